@@ -451,6 +451,23 @@ def write_flow(ctx, syn_mod, shelly_members, has_escape=True,
                    owner.node is wl.node, n,
                    'self.stream.write called outside write_literal')
 
+    # (0b) Writer.quote is the plain sh quoter: its caller
+    # (tests._build_commands) hands it text the writer has *already*
+    # escaped for the build file, so it must not escape again
+    if 'quote' in cls.methods:
+        qm = cls.methods['quote']
+        calls_ = [n for n in ast.walk(qm) if isinstance(n, ast.Call)]
+        esc = [c for c in calls_ if Q.callee_attr(c) in ('escape_str',
+                                                        'write')]
+        rets = Q.returns(qm)
+        okq = not esc and len(rets) == 1 and isinstance(
+            rets[0].value, ast.Call) and Q.callee_attr(
+                rets[0].value) == 'quote' and len(calls_) == 1
+        ctx.ob(R, short + '|quote-is-plain-sh-quote', okq, qm,
+               'Writer.quote does more than sh-quote its argument: text '
+               'that was already escaped for the build file would be '
+               'escaped twice')
+
     # (1) shelly
     vals = Q.local_assignments(fn, 'shelly')
     Q.require(len(vals) == 1 and vals[0] is not None,
@@ -756,7 +773,11 @@ def sh_safe(ctx, include_make_recipe=False, rule_id='SH-SAFE'):
               'module constant')
     Q.require(Q.callee_attr(s) == 'search', 'inner_quote_info: quoting test '
               'is not a search for a bad character')
-    bad = rx.class_chars(rc.pattern)
+    # characters that trigger quoting wherever they occur in the word; a
+    # `^c` alternative only covers the first position and does not count
+    # (sh also expands `~` after `:` / `=` in assignment words, and bfg9000
+    # writes environment values as NAME=value words)
+    bad, _at_end = rx.search_alternative_chars(rc.pattern)
     safe = [c for c in rx.SIGMA if c not in bad]
     ctx.stat('sh_unquoted_chars', ''.join(sorted(safe)))
     # the test must lead to the quoting branch (positive use)
